@@ -131,6 +131,9 @@ enum Kind
   I_RETPTR,
   I_CALLBACK,
   V_ARITH,
+  P_ARRAY_COPY,
+  P_VOL_ASSIGN,
+  P_FNPTR_CELL,
   K_COUNT
 };
 static const char* kKind[] = { "create",       "destroy",      "malloc",     "free",        "free_dead",
@@ -140,7 +143,7 @@ static const char* kKind[] = { "create",       "destroy",      "malloc",     "fr
                                "field_addr",   "load",         "load_field", "load_struct", "store",
                                "store_field",  "store_struct", "cast",       "opaque",      "guest_write_cell",
                                "app_ptr",      "grant",        "invoke_echo", "invoke_retptr", "invoke_callback",
-                               "volatile_ptr_op" };
+                               "volatile_ptr_op", "array_of_pointers_copy", "volatile_to_volatile_assign", "function_pointer_cell" };
 static_assert(sizeof(kKind) / sizeof(kKind[0]) == K_COUNT);
 
 enum TypeTag
@@ -1674,6 +1677,112 @@ struct MemWorld : World
       C->fired("F2_pointer_cell_rewritten_between_accesses");
   }
 
+  // whole array of pointers: sandbox -> application -> (other node's) sandbox memory
+  void do_array_copy(const Op& op)
+  {
+    Handle* a = pick(op.a[0], T_NODE);
+    Handle* b = pick(op.a[1], T_NODE);
+    if (!a || !b || a->sbx != b->sbx || !fits(*a, sizeof(GNode)) || !fits(*b, sizeof(GNode)))
+      return;
+    int s = a->sbx;
+    SbxState& st = S[(size_t)s];
+    auto& ta = std::get<TP<SimNode>>(a->v);
+    auto& tb = std::get<TP<SimNode>>(b->v);
+    uint32_t aoff = (uint32_t)(haddr(*a) - st.base()), boff = (uint32_t)(haddr(*b) - st.base());
+    PT before[3];
+    memcpy(before, st.impl()->gptr(aoff + (uint32_t)offsetof(GNode, ptrs)), sizeof before);
+    bool direct = (op.a[2] & 1) != 0; // volatile -> volatile array assignment without passing through the application
+    Outcome o = attempt([&] {
+      if (direct) {
+        tb->ptrs = ta->ptrs;
+      } else {
+        rlbox::tainted<int* [3], Sbx> arr = ta->ptrs;
+        for (size_t i = 0; i < 3; i++) {
+          TP<int> e = arr[i];
+          check_load(s, aoff + (uint32_t)offsetof(GNode, ptrs) + (uint32_t)(sizeof(PT) * i), (uintptr_t)e.UNSAFE_unverified(), "array_of_pointers_copy");
+          check_ptr(s, (uintptr_t)e.UNSAFE_unverified(), "array_of_pointers_copy");
+        }
+        tb->ptrs = arr;
+      }
+    });
+    C->ev("array_of_pointers_copy direct=%d -> %s", (int)direct, oname(o));
+    if (o != OK) {
+      if (!C->stop)
+        C->violate("C04", "array_of_pointers_copy_fails@array_of_pointers_copy", "%s: %s", oname(o), g_last_abort_msg.c_str());
+      return;
+    }
+    C->probe("array_of_pointers_copied");
+    PT after[3];
+    memcpy(after, st.impl()->gptr(boff + (uint32_t)offsetof(GNode, ptrs)), sizeof after);
+    for (int i = 0; i < 3 && !C->stop; i++) {
+      PT want = direct ? before[i] : (before[i] == 0 ? (PT)0 : (PT)(before[i] & (st.size() - 1)));
+      if (after[i] != want)
+        C->violate("C04",
+                   std::string((before[i] == 0) != (after[i] == 0) ? "null_not_preserved@" : "wrong_representation@") + "array_of_pointers_copy",
+                   "element %d: source representation %llu, destination holds %llu",
+                   i,
+                   (unsigned long long)before[i],
+                   (unsigned long long)after[i]);
+    }
+  }
+
+  // *pp = *qq inside one sandbox: the representation is copied as it is
+  void do_vol_assign(const Op& op)
+  {
+    Handle* d = pick(op.a[0], T_PINT);
+    Handle* q = pick(op.a[1], T_PINT);
+    if (!d || !q || d->sbx != q->sbx || !fits(*d, sizeof(PT)) || !fits(*q, sizeof(PT)))
+      return;
+    int s = d->sbx;
+    SbxState& st = S[(size_t)s];
+    auto& pd = std::get<TP<int*>>(d->v);
+    auto& pq = std::get<TP<int*>>(q->v);
+    PT src;
+    memcpy(&src, st.impl()->gptr((uint32_t)(haddr(*q) - st.base())), sizeof src);
+    Outcome o = attempt([&] { *pd = *pq; });
+    C->ev("volatile_to_volatile_assign -> %s", oname(o));
+    if (o != OK) {
+      C->violate("C04", "volatile_assign_fails@volatile_to_volatile_assign", "%s", g_last_abort_msg.c_str());
+      return;
+    }
+    PT dst;
+    memcpy(&dst, st.impl()->gptr((uint32_t)(haddr(*d) - st.base())), sizeof dst);
+    if (dst != src)
+      C->violate("C04", "wrong_representation@volatile_to_volatile_assign", "source cell %llu, destination cell %llu", (unsigned long long)src, (unsigned long long)dst);
+  }
+
+  // function pointers in sandbox memory: a callback's entry point and a hostile index read back
+  void do_fnptr_cell(const Op& op)
+  {
+    int s = pick_sbx(op.a[0]);
+    SbxState& st = S[(size_t)s];
+    if (st.state != 1 || !st.cbptr || st.cbptr->is_unregistered())
+      return;
+    using Fn = char* (*)(char*);
+    auto cell = rlbox::sandbox_reinterpret_cast<Fn*>(st.pcell);
+    uint32_t celloff = (uint32_t)((uintptr_t)st.pcell.UNSAFE_unverified() - st.base());
+    PT got = 0;
+    Outcome o = attempt([&] { *cell = *st.cbptr; });
+    memcpy(&got, st.impl()->gptr(celloff), sizeof got);
+    PT want = (PT)st.cbptr->UNSAFE_sandboxed(*st.sb);
+    C->ev("function_pointer_cell store -> %s", oname(o));
+    if (o != OK || got != want) {
+      C->violate("C04", "wrong_representation@function_pointer_cell", "callback stored into a cell: guest sees %llu, entry point is %llu", (unsigned long long)got, (unsigned long long)want);
+      return;
+    }
+    // the guest replaces it by an arbitrary index; reading it back must give exactly that representation
+    PT bits = (PT)(uint32_t)op.a[1];
+    memcpy(st.impl()->gptr(celloff), &bits, sizeof bits);
+    rlbox::tainted<Fn, Sbx> f = nullptr;
+    Outcome o2 = attempt([&] { f = *cell; });
+    if (o2 != OK)
+      return;
+    PT back = (PT)f.UNSAFE_sandboxed(*st.sb);
+    if (back != bits)
+      C->violate("C04", "wrong_representation@function_pointer_cell", "guest stored function index %llu, round trip gives %llu", (unsigned long long)bits, (unsigned long long)back);
+    C->probe("function_pointer_round_trip");
+  }
+
   void run(const Plan& p, Ctx& c) override
   {
     C = &c;
@@ -1808,6 +1917,15 @@ struct MemWorld : World
           break;
         case V_ARITH:
           do_volatile(op);
+          break;
+        case P_ARRAY_COPY:
+          do_array_copy(op);
+          break;
+        case P_VOL_ASSIGN:
+          do_vol_assign(op);
+          break;
+        case P_FNPTR_CELL:
+          do_fnptr_cell(op);
           break;
       }
       int live = 0;
